@@ -110,6 +110,9 @@ def run(ctx):
     ctx.rule("C16-R7", "frame payloads are written exactly once under partial writes: PutBuffer / PutVarint keep their progress in the future")
     shared.poll_loops(ctx, "C16-R7")
 
+    ctx.rule("C16-R8", "every datagram the endpoint emits is prefixed by the varint of the session's quarter stream id and nothing else")
+    shared.driver_datagram_tables(ctx, "C16-R8")
+
     ctx.rule("C16-R5", "stream preambles and datagram prefix (writers)")
     shared.preamble_writers(ctx, "C16-R5")
 
